@@ -283,6 +283,7 @@ class LP_Solver:
         '''
 
         for opt, additional_arguments in optimisation_options:
+            solves_before = self.num_solves
             if opt == Optimisation_options.MAXSIZE:
                 self.optimisation_maxsize()
             if opt == Optimisation_options.MINSIZE:
@@ -302,8 +303,11 @@ class LP_Solver:
             if opt == Optimisation_options.MINCOSTLSB:
                 self.optimisation_mincostlsb(additional_arguments)
 
-            # Exit early if one of the optimisations is not solved.
-            if not LpStatus[self.prob.status] == self.model.OPTIMAL_PULP_STATUS:
+            # Exit early if one of the optimisations is not solved (an 
+            # optimisation without any rank to optimise solves nothing and 
+            # cannot fail).
+            if (self.num_solves > solves_before and
+                not LpStatus[self.prob.status] == self.model.OPTIMAL_PULP_STATUS):
                 return None
 
     
